@@ -116,6 +116,43 @@ def _guarded(evaluate, case):
         return (None, [], False, None, traceback.format_exc())
 
 
+def _guarded_timed(evaluate, case):
+    t = time.time()
+    r = _guarded(evaluate, case)
+    return r, time.time() - t
+
+
+_SEQ_CODE = (
+    "import importlib, json, sys, logging\n"
+    "logging.disable(logging.WARNING)\n"
+    "from vf.core.ctx import _guarded\n"
+    "m = importlib.import_module(sys.argv[1])\n"
+    "f = getattr(m, sys.argv[2])\n"
+    "out = []\n"
+    "for case in json.loads(sys.stdin.read()):\n"
+    "    r = _guarded(f, case)\n"
+    "    out.append([r[0], sorted(x[0] for x in r[1]), r[4]])\n"
+    "print('SEQ ' + json.dumps(out))\n"
+)
+
+
+def _sequence_eval(evaluate, cases):
+    """Evaluate the cases one after the other in ONE pristine interpreter; returns [(outcome, [signatures], tb)] or None."""
+    import subprocess
+
+    try:
+        out = subprocess.run(
+            [sys.executable, "-c", _SEQ_CODE, evaluate.__module__, evaluate.__name__],
+            input=json.dumps(jsonable(cases)), capture_output=True, text=True, timeout=3600,
+        )
+    except Exception:  # noqa
+        return None
+    for line in out.stdout.splitlines():
+        if line.startswith("SEQ "):
+            return json.loads(line[4:])
+    return None
+
+
 def _fresh_eval(evaluate, case):
     """Evaluate one case in a pristine interpreter process; returns (outcome, fails, nontrivial, info) or None."""
     import subprocess
@@ -243,12 +280,18 @@ class Ctx:
             _preimport()
             cs = chunksize or max(1, min(64, n // (self.jobs * 8) or 1))
             ex = self._executor()
-            it = ex.map(_guarded, [evaluate] * n, cases, chunksize=cs)
-            for case, out in zip(cases, it):
+            it = ex.map(_guarded_timed, [evaluate] * n, cases, chunksize=cs)
+            durations = []
+            for case, (out, dt) in zip(cases, it):
                 results.append((case, out))
+                durations.append(dt)
         else:
+            durations = []
             for case in cases:
-                results.append((case, _guarded(evaluate, case)))
+                out, dt = _guarded_timed(evaluate, case)
+                results.append((case, out))
+                durations.append(dt)
+        self._history_probe(evaluate, cases, durations, results)
         for case, (outcome, fails, nontrivial, info, tb) in results:
             if tb is not None:
                 raise HarnessError(f"evaluate crashed on case {jsonable(case)}:\n{tb}")
@@ -277,6 +320,40 @@ class Ctx:
                         res = Result(outcome if o2[0] is None else o2[0], [], nontrivial, info)
             self.record(case, res)
         return results
+
+    def _history_probe(self, evaluate, cases, durations, results):
+        """Call-order exploration: the first K cheap cases are evaluated in ONE pristine process in enumeration order, and in
+        another pristine process in reverse order. A case is a pure function of its JSON: if its observation depends on the
+        order, the code under test (or the harness) keeps state between calls; reported with both sequences as replay."""
+        if os.environ.get("VERIF_HISTORY_PROBE", "1") == "0" or len(cases) < 2:
+            return
+        self._probes_done = getattr(self, "_probes_done", 0)
+        if self._probes_done >= 2:
+            return
+        self._probes_done += 1
+        order = sorted(range(len(cases)), key=lambda i: case_key(cases[i]))  # seed-independent choice
+        pick = [i for i in order if durations[i] < 2.0 and results[i][1][4] is None][:16]
+        if len(pick) < 2:
+            return
+        seq = [cases[i] for i in pick]
+        a = _sequence_eval(evaluate, seq)
+        b = _sequence_eval(evaluate, seq[::-1])
+        self.extra["call_order_probe_cases"] = self.extra.get("call_order_probe_cases", 0) + len(seq)
+        if a is None or b is None:
+            raise HarnessError("call-order probe: the sequence could not be evaluated in a pristine process")
+        b = b[::-1]
+        for case, ra, rb in zip(seq, a, b):
+            if ra[2] is not None or rb[2] is not None:
+                raise HarnessError(f"call-order probe: evaluate crashed: {ra[2] or rb[2]}")
+            if ra[0] != rb[0] or ra[1] != rb[1]:
+                sig = "call-history-dependence/" + (sorted(set(ra[1]) ^ set(rb[1])) or [f"{ra[0]} vs {rb[0]}"])[0]
+                self.fails.append((
+                    {"history_probe": True, "module": evaluate.__module__, "function": evaluate.__name__, "sequence": jsonable(seq), "case": jsonable(case)},
+                    Fail(sig, f"case {jsonable(case)} gives outcome {ra[0]!r} / failures {ra[1]} when the {len(seq)} probe cases are evaluated in "
+                              f"enumeration order in one fresh process, but {rb[0]!r} / {rb[1]} when they are evaluated in reverse order: "
+                              "the result of a call depends on earlier calls (state kept between calls)"),
+                ))
+                return
 
     def add_fail(self, case, signature, message):
         """Failure of a cross-case oracle (decided in run() after the cases were evaluated)."""
